@@ -277,7 +277,8 @@ func TestVerifC06Shape(t *testing.T) {
 	dir, _ := os.MkdirTemp(os.Getenv("VERIF_WORKDIR"), "c06")
 	defer os.RemoveAll(dir)
 	rapid.Check(t, func(rt *rapid.T) {
-		p := vfC05Params{Cookie: rapid.Bool().Draw(rt, "cookie"), NSID: rapid.Bool().Draw(rt, "nsid"), Chaos: rapid.Bool().Draw(rt, "chaos")}
+		p := vfC05Params{Cookie: rapid.Bool().Draw(rt, "cookie"), NSID: rapid.Bool().Draw(rt, "nsid"), Chaos: rapid.Bool().Draw(rt, "chaos"),
+			ClientRate: rapid.SampledFrom([]int{0, 0, 50, 1000}).Draw(rt, "clientrate")} // with a client rate limit, a changed client cookie is answered BADCOOKIE ahead of the edns middleware
 		ecsOn := rapid.Bool().Draw(rt, "ecs")
 		proto := vfGenUpstream(rt)
 		vfAddProofZone(rt, proto) // signed negative answers: RRSIG / NSEC in the authority section only
